@@ -257,6 +257,45 @@ fn main() {
         }
         t
     });
+    // S5: slices / Vec of decimals: element-wise value-equal sequences must feed identical data too
+    // (Hash::hash_slice is part of the same trait impl)
+    let seq_pool: Vec<Vec<Dec>> = vec![
+        family(&Dec::new(3, -2), [0u64, 1, 2, 5].into_iter()),
+        family(&Dec::new(5, -6), [0u64, 3, 6, 8].into_iter()),
+        family(&Dec::new(-12, 0), [0u64, 1, 19, 20].into_iter()),
+        family(&Dec::new(7, 3), [0u64, 1, 2, 3].into_iter()),
+        vec![Dec::new(0, 0), Dec::new(0, 4), Dec::new(0, -4), Dec::new(0, 1)],
+        family(&Dec::new(1, -1), [0u64, 1, 2, 30].into_iter()),
+    ];
+    run.par("S5 slices of value-equal elements", seq_pool.len() * seq_pool.len(), |ij| {
+        let (i, j) = (ij / seq_pool.len(), ij % seq_pool.len());
+        let mut t = Tally::default();
+        // every pair (and with a third element) of representations vs the reference representations
+        let record = |xs: &[BigDecimal]| -> (Vec<(u8, Vec<u8>)>, u64) {
+            let mut r = Recorder::default();
+            xs.hash(&mut r);
+            let mut d = std::collections::hash_map::DefaultHasher::new();
+            xs.to_vec().hash(&mut d);
+            (r.calls, d.finish())
+        };
+        let reference = vec![bd(&seq_pool[i][0]), bd(&seq_pool[j][0]), bd(&seq_pool[i][0])];
+        let want = guard(|| record(&reference));
+        for a in seq_pool[i].iter() {
+            for b in seq_pool[j].iter() {
+                for c in seq_pool[i].iter() {
+                    t.states += 1;
+                    t.transitions += 2;
+                    t.nontrivial += 1;
+                    let xs = vec![bd(a), bd(b), bd(c)];
+                    let got = guard(|| record(&xs));
+                    if got != want {
+                        run.report(Violation::new("Hash::hash_slice", "hash_differs", json!({"reference": format!("[{}, {}, {}]", seq_pool[i][0].show(), seq_pool[j][0].show(), seq_pool[i][0].show()), "member": format!("[{}, {}, {}]", a.show(), b.show(), c.show())}), format!("{:?}", want.as_ref().map(|w| w.1)), format!("{:?}", got.as_ref().map(|w| w.1))));
+                    }
+                }
+            }
+        }
+        t
+    });
     let _ = BigInt::zero();
     run.finish();
 }
